@@ -85,7 +85,14 @@ fn face_tok(f: &Face) -> String {
     )
 }
 
+/// half of the colours come from a small pool, so that equal colours in different roles of one record
+/// (fg = underline colour, fg = bg) and in consecutive records are routine, not a 2^-24 coincidence
+const POOL: [[u8; 3]; 6] = [[0, 0, 0], [255, 255, 255], [255, 0, 0], [0, 95, 215], [128, 128, 128], [18, 52, 86]];
 fn rnd_color(rng: &mut Rng) -> RGBA {
+    if rng.chance(1, 2) {
+        let [r, g, b] = *rng.pick(&POOL);
+        return RGBA::new(r, g, b, 255);
+    }
     RGBA::new(rng.below(256) as u8, rng.below(256) as u8, rng.below(256) as u8, 255)
 }
 fn opt_color(rng: &mut Rng) -> Option<RGBA> {
